@@ -263,6 +263,13 @@ func TestC34(t *testing.T) {
 				add("INSERT(s,p,l,u) = CONCAT(LEFT(s,p-1), u, SUBSTRING(s,p+l))", f("CONCAT(LEFT(%s,%s-1), %s, SUBSTRING(%s,%s+%s))", S, P, U, S, P, L), []string{"s", "p", "l", "u"}, wantStr(want))
 			}
 		}
+		// LPAD / RPAD with an empty pad string and len <= CHAR_LENGTH(s): nothing has to be padded, so the
+		// documented shortening rule alone decides ("If str is longer than len, the return value is shortened
+		// to len characters"); len > CHAR_LENGTH(s) with an empty pad string is not pinned down and not generated
+		if n >= 0 && u == "" && padOK && n <= len([]rune(s)) {
+			add("LPAD(s,n,'') = LEFT(s,n) for n <= CHAR_LENGTH(s)", f("LPAD(%s,%s,%s)", S, N, U), []string{"s", "n", "u"}, wantStr(refPad(s, n, "x", true)))
+			add("RPAD(s,n,'') = LEFT(s,n) for n <= CHAR_LENGTH(s)", f("RPAD(%s,%s,%s)", S, N, U), []string{"s", "n", "u"}, wantStr(refPad(s, n, "x", false)))
+		}
 		// LPAD / RPAD (len >= 0, non-empty pad string)
 		if n >= 0 && u != "" && padOK {
 			knownPad := func(left bool) func(any, error) string {
